@@ -1028,9 +1028,13 @@ func (w *World) stableLeader() *Node {
 }
 
 // converged: one leader, every up server in its configuration has applied the leader's commit index.
-func (w *World) converged() bool {
+func (w *World) converged() bool { return w.callsDone() && w.convergedState() }
+
+// convergedState: as converged, without asking that every client call has resolved (that is C17's subject; C12
+// judges the cluster's state).
+func (w *World) convergedState() bool {
 	l := w.stableLeader()
-	if l == nil || !w.callsDone() {
+	if l == nil {
 		return false
 	}
 	ci := l.r.CommitIndex()
